@@ -169,6 +169,29 @@ func TestVerifC16(t *testing.T) {
 						}
 					}
 				}
+				// several degraded passages in one text: every one of them is below the
+				// threshold and none may leak
+				for k := 0; k < 6; k++ {
+					var parts []string
+					for j, m := 0, 2+r.Intn(3); j < m; j++ {
+						raw, _ := ReadLicenseFile(sub[r.Intn(len(sub))])
+						if len(raw) > 6000 {
+							continue
+						}
+						parts = append(parts, vEditText(r, string(raw), []float64{0.3, 0.4, 0.5}[r.Intn(3)]))
+					}
+					q := strings.Join(parts, "\n\nsoftware license terms\n\n")
+					for _, hdr := range []bool{true, false} {
+						for _, m := range C.MultipleMatch(q, hdr) {
+							nm++
+							if m.Confidence < thr-1e-9 {
+								cs.hostileInput([]byte(q))
+								cs.violation("match-below-threshold", "threshold %v: MultipleMatch returned %s for a text made of %d degraded passages", thr, vFmtMatch(m), len(parts))
+								return
+							}
+						}
+					}
+				}
 				// sweep the amount of inserted junk across the point where the confidence
 				// crosses the threshold: matches just below it must not be reported
 				for _, n := range sub {
